@@ -342,6 +342,10 @@ func (f *fnCtx) bufAssign(s *ast.AssignStmt, sc scope, next func(scope) string) 
 	var v val
 	switch r := rhs.(type) {
 	case *ast.CallExpr:
+		if va, isAppend := f.appendBuf(x, isNew, r); isAppend { // append.go: x = append(x, ..) / strconv.AppendInt(x, .., 16)
+			v = va
+			break
+		}
 		v = f.makeBuf(r)
 	case *ast.SliceExpr:
 		src, ok := f.bufVar(r.X)
@@ -394,6 +398,7 @@ func (f *fnCtx) resliceBuf(r *ast.SliceExpr) val {
 	if r.Slice3 || r.Low != nil || r.High == nil {
 		f.refuse(r, "on a []byte buffer only x[:k] is accepted (a lower bound moves the start of the backing array)")
 	}
+	f.capObserved(x, r, "x[:k]") // append.go
 	xn := f.readBuf(x, r)
 	k := f.expr(r.High)
 	if k.t.k != tZ {
